@@ -288,6 +288,9 @@ def conc_op(client, idx):
         st.tuples(st.just('popitem'), st.booleans()),
         st.tuples(st.just('contains'), k),
         st.tuples(st.just('len')),
+        st.tuples(st.just('del'), k),  # KeyError when the key is absent: a transaction that rolls back
+        st.tuples(st.just('del'), st.just('never-there')),
+        st.tuples(st.just('reopen')),  # a further handle on the directory comes and goes (unpickling constructs one)
     )
 
 
@@ -303,7 +306,8 @@ def conc_case(draw):
         elif choice == 'file':
             init.append((k, ('B', 250 if k == 'x' else 251)))
     schedule = draw(st.lists(st.tuples(st.integers(0, n - 1), st.one_of(st.integers(1, 8), st.sampled_from([12, 16, 24, 40]))), max_size=14))
-    return {'init': init, 'progs': progs, 'schedule': schedule}
+    # 'shared': the threads use ONE Index object (what FanoutCache.index / DjangoCache.index hand out), 'own': one object each
+    return {'init': init, 'progs': progs, 'schedule': schedule, 'mode': draw(st.sampled_from(['own', 'own', 'shared']))}
 
 
 def unmkv(v):
@@ -331,6 +335,13 @@ def do_conc(ix, op):
             return ('ok', op[1] in ix)
         if name == 'len':
             return ('ok', len(ix))
+        if name == 'del':
+            del ix[op[1]]
+            return ('ok', None)
+        if name == 'reopen':
+            other = pickle.loads(pickle.dumps(ix))
+            other.cache.close()
+            return ('ok', None)
     except Exception as exc:
         return ('exc', type(exc).__name__)
     raise HarnessError('unknown op %r' % (op,))
@@ -354,6 +365,11 @@ def conc_apply(state, call):
         exp = ('ok', op[1] in d)
     elif name == 'len':
         exp = ('ok', len(d))
+    elif name == 'del':
+        exp = ('ok', None) if op[1] in d else ('exc', 'KeyError')
+        d.pop(op[1], None)
+    elif name == 'reopen':
+        exp = ('ok', None)
     else:
         raise HarnessError('model: unknown op %r' % (op,))
     return tuple(d.items()), exp == res
@@ -374,11 +390,11 @@ class Concurrent(SubCheck):
         n = len(case['progs'])
 
         def open_clients(path):
-            caches = [diskcache.Cache(path, timeout=0, eviction_policy='none', disk_min_file_size=8) for _ in range(n)]
+            caches = [diskcache.Cache(path, timeout=0, eviction_policy='none', disk_min_file_size=8) for _ in range(1 if case.get('mode') == 'shared' else n)]
             ixs = [diskcache.Index.fromcache(c) for c in caches]
             for k, v in case['init']:
                 ixs[0][k] = mkv(v)
-            return ixs, caches
+            return (ixs * n if case.get('mode') == 'shared' else ixs), caches
 
         calls, sched = run_scheduled(env, case['progs'], case['schedule'], open_clients, do_conc, 'C12', warm=lambda ix: ix.cache._sql, final_ops=[('getitem', 'x'), ('getitem', 'y'), ('len',), ('popitem', False), ('popitem', False)])
         if sched.limit_hit:
@@ -406,7 +422,7 @@ class Concurrent(SubCheck):
             for a in calls
             for b in calls
         )
-        return {'nontrivial': nontrivial, 'classes': ['clients=%d' % n]}
+        return {'nontrivial': nontrivial, 'classes': ['clients=%d' % n, 'mode=' + case.get('mode', 'own')]}
 
     def selftest(self, env):
         io_selftest(env)
